@@ -445,6 +445,10 @@ def pick(rows: list[dict], rng: random.Random, policy: str) -> int:
     """Realistic time: a delayed message (pushed with the 15 s retry delay / task backoff) is delivered
     only when no undelayed message is pending; the policy orders the rest."""
     now = [r["id"] for r in rows if not r.get("delayed")]
+    if not now and policy != "eager_delayed":
+        # only delayed messages are left: time passes and the one that falls due FIRST is delivered, whatever the
+        # policy (an order that forever prefers a 15 s re-queue over a 1 s task retry is not a schedule the queue has)
+        return min(rows, key=lambda r: (r.get("due", 0.0), r["id"]))["id"]
     ids = now or [r["id"] for r in rows]
     if policy in ("fifo",):
         return ids[0]
